@@ -23,6 +23,8 @@ fn menu() -> Vec<Sig> {
         Sig::inp("Q", 4, 0),
         Sig::bidir("Q", 4, V::Z),
         Sig::out("A_out", 4),
+        // an input whose name is the _out column of a bidirectional signal
+        Sig::inp("A_out", 4, 0),
         Sig::inp("V", 4, 0),
         Sig::out("V", 4),
     ]
@@ -98,6 +100,9 @@ pub fn programs(w: usize) -> Vec<(String, Vec<Stmt>)> {
         out.push((format!("read {x} before the let inside a loop"), vec![Stmt::Loop("i".into(), lit(2), vec![rd(x), Stmt::Let(x.into(), lit(1))])]));
         out.push((format!("let {x} = {x} + 1 (reads itself)"), vec![Stmt::Let(x.into(), bin(BinOp::Add, nx(), lit(1))), plain(w)]));
         out.push((format!("let {x} inside an executed while, read after it"), vec![Stmt::Let("t".into(), lit(1)), Stmt::While(name("t"), vec![Stmt::Let(x.into(), lit(1)), Stmt::Let("t".into(), lit(0))]), rd(x)]));
+        out.push((format!("let {x}; a loop holding only a declaration; read {x} after the loop"), vec![Stmt::Let(x.into(), lit(1)), Stmt::Loop("i".into(), lit(1), vec![Stmt::Declare("W9".into(), lit(1))]), rd(x)]));
+        out.push((format!("let {x} inside a loop, a declaration after it in the same body, then read {x}"), vec![Stmt::Loop("i".into(), lit(1), vec![Stmt::Let(x.into(), lit(1)), Stmt::Declare("W9".into(), lit(2)), rd(x)])]));
+        out.push((format!("let {x}; declaration inside while; read {x}"), vec![Stmt::Let(x.into(), lit(1)), Stmt::While(lit(0), vec![Stmt::Declare("W9".into(), lit(1))]), rd(x)]));
         out.push((format!("loop counter {x}, read inside"), vec![Stmt::Loop(x.into(), lit(2), vec![rd(x)])]));
         out.push((format!("loop counter {x}, read after the loop"), vec![Stmt::Loop(x.into(), lit(1), vec![plain(w)]), rd(x)]));
         out.push((format!("loop({x},{x})"), vec![Stmt::Loop(x.into(), nx(), vec![plain(w)])]));
@@ -129,7 +134,7 @@ pub fn run(tier: Tier, seed: u64) -> i32 {
     let headers: Vec<Vec<String>> = ordered_selections(COLUMNS.len(), 3).into_iter().filter(|h| !h.is_empty()).map(|h| h.into_iter().map(|i| COLUMNS[i].to_string()).collect()).collect();
     let progs: Vec<Vec<(String, Vec<Stmt>)>> = (0..=3).map(|w| if w == 0 { vec![] } else { programs(w) }).collect();
     let units: Vec<(usize, usize)> = headers.iter().enumerate().flat_map(|(hi, h)| (0..progs[h.len()].len()).map(move |pi| (hi, pi))).collect();
-    let label = format!("(header, program) units: {} headers (ordered selections of <= 3 of 7 column names) x program menu; each against all {} signal lists (sequences of <= {max_list} of 10 menu signals)", headers.len(), lists.len());
+    let label = format!("(header, program) units: {} headers (ordered selections of <= 3 of 7 column names) x program menu; each against all {} signal lists (sequences of <= {max_list} of 11 menu signals)", headers.len(), lists.len());
     let st = par_range(&label, units.len() as u64, &deadline, |u, st| {
         let (hi, pi) = units[u as usize];
         let header = &headers[hi];
